@@ -174,11 +174,19 @@ impl GenerationPass for AvailableValuePass {
                 if let Some((reg, reg_value)) = node.gen_reg_value() {
                     out_reg_n.insert(reg, reg_value);
                 }
-                if node.is_handler_function_entry() {
-                    out_reg_n.extend(Register::all_writable_set().into_available_values());
-                }
                 if node.is_function_entry() {
-                    out_reg_n.extend(Register::callee_saved_set().into_available_values());
+                    // A function is entered by calls (a handler by the
+                    // environment), which promise nothing about the registers:
+                    // all that is known behind the entry is that the preserved
+                    // registers hold their values "at entry". What the code in
+                    // front of the label knows (it can fall or jump into the
+                    // function as well) does not hold for a caller.
+                    let mut at_entry = AvailableValueMap::new();
+                    if node.is_handler_function_entry() {
+                        at_entry.extend(Register::all_writable_set().into_available_values());
+                    }
+                    at_entry.extend(Register::callee_saved_set().into_available_values());
+                    out_reg_n = at_entry;
                 }
                 if node.is_program_entry() {
                     out_reg_n.extend(Register::sp_ra_set().into_available_values());
